@@ -46,41 +46,47 @@ func c02bConfigs(tier string, h *Harness) ([]Config, map[string]*c02bCase, []str
 		text := c05Source(p)
 		f := filepath.Join(work, fmt.Sprintf("s%d.basm", i))
 		os.WriteFile(f, []byte(text), 0o644)
-		out, err := Native("basmhdl", f)
-		name := fmt.Sprintf("stream: basm source #%d (Rsize=%d, %d registers, %d inputs, %d outputs, %d lines)", i, p.rsize, p.nregs, p.nin, p.nout, p.nlines)
-		if err != nil {
-			errs = append(errs, name+": "+err.Error())
-			continue
-		}
-		if strings.Contains(out, "BASM-ERROR") {
-			rejected++
-			continue
-		}
-		var desc []string
-		for _, l := range strings.Split(out, "\n") {
-			if strings.HasPrefix(l, "//@@DESC ") {
-				desc = append(desc, strings.TrimPrefix(l, "//@@DESC "))
+		for _, hw := range []string{"", "onlydestregs"} {
+			args := []string{"basmhdl", f}
+			if hw != "" {
+				args = append(args, hw)
 			}
+			out, err := Native(args...)
+			name := fmt.Sprintf("stream: basm source #%d (Rsize=%d, %d registers, %d inputs, %d outputs, %d lines) hardware optimisation=%q", i, p.rsize, p.nregs, p.nin, p.nout, p.nlines, hw)
+			if err != nil {
+				errs = append(errs, name+": "+err.Error())
+				continue
+			}
+			if strings.Contains(out, "BASM-ERROR") {
+				rejected++
+				continue
+			}
+			var desc []string
+			for _, l := range strings.Split(out, "\n") {
+				if strings.HasPrefix(l, "//@@DESC ") {
+					desc = append(desc, strings.TrimPrefix(l, "//@@DESC "))
+				}
+			}
+			cps, inLine, outLine, linkLine := parseEmitted(strings.Join(desc, "\n"))
+			mods, _, err := ParseFiles(out)
+			if err != nil {
+				errs = append(errs, "ENCODING-FAILURE "+name+": "+err.Error())
+				continue
+			}
+			d, err := vlog.Elaborate(mods, "bondmachine", nil)
+			if err != nil {
+				errs = append(errs, "ENCODING-FAILURE "+name+": "+err.Error())
+				continue
+			}
+			R := 0
+			if len(cps) > 0 {
+				R, _ = strconv.Atoi(strings.Split(cps[0], ":")[0])
+			}
+			T := 2*p.nlines + 4
+			cases[name] = &c02bCase{name: name, design: d, rsize: p.rsize, nin: p.nin, nout: p.nout, nregs: 1 << uint(R), T: T}
+			cfgs = append(cfgs, Config{Name: name, Func: "zzC02Stream", Harness: h, Setup: func(in *symgo.Interp) { in.MaxUnwind = 400 },
+				Args: []Arg{I(p.rsize), S(strings.Join(cps, ";")), S(inLine), S(outLine), S(linkLine), I(T)}})
 		}
-		cps, inLine, outLine, linkLine := parseEmitted(strings.Join(desc, "\n"))
-		mods, _, err := ParseFiles(out)
-		if err != nil {
-			errs = append(errs, "ENCODING-FAILURE "+name+": "+err.Error())
-			continue
-		}
-		d, err := vlog.Elaborate(mods, "bondmachine", nil)
-		if err != nil {
-			errs = append(errs, "ENCODING-FAILURE "+name+": "+err.Error())
-			continue
-		}
-		R := 0
-		if len(cps) > 0 {
-			R, _ = strconv.Atoi(strings.Split(cps[0], ":")[0])
-		}
-		T := 2*p.nlines + 4
-		cases[name] = &c02bCase{name: name, design: d, rsize: p.rsize, nin: p.nin, nout: p.nout, nregs: 1 << uint(R), T: T}
-		cfgs = append(cfgs, Config{Name: name, Func: "zzC02Stream", Harness: h, Setup: func(in *symgo.Interp) { in.MaxUnwind = 400 },
-			Args: []Arg{I(p.rsize), S(strings.Join(cps, ";")), S(inLine), S(outLine), S(linkLine), I(T)}})
 	}
 	return cfgs, cases, errs, rejected
 }
